@@ -287,7 +287,7 @@ def main(argv=None):
       proof_lost=proof_lost, undecided=undecided,
   )
   level = 'proof'
-  if not fully_proved or known_seen:
+  if not fully_proved:
     level = 'other'
     coverage['explanation'] = (
         'Deductive obligations discharged: %d of %d. ' % (n_dis, n_obl)
